@@ -199,6 +199,7 @@ func (impl Implementation) Dgels(trans blas.Transpose, m, n, nrhs int, a []float
 			if !ok {
 				return false
 			}
+			scllen = m
 		}
 	}
 
